@@ -58,6 +58,10 @@ pub fn dispatch(op: &str, a: &[Val]) -> Option<Val> {
         "ndt.sub" => (|| Some(vopt(dec_ndt(a.get(0)?)?.checked_sub_signed(dec_td(a.get(1)?)?), enc_ndt)))(),
         "ndt.opadd" => (|| Some(enc_ndt(dec_ndt(a.get(0)?)? + dec_td(a.get(1)?)?)))(),
         "ndt.opsub" => (|| Some(enc_ndt(dec_ndt(a.get(0)?)? - dec_td(a.get(1)?)?)))(),
+        "ndt.addstd" => (|| Some(enc_ndt(dec_ndt(a.get(0)?)? + std(a.get(1)?, a.get(2)?)?)))(),
+        "ndt.substd" => (|| Some(enc_ndt(dec_ndt(a.get(0)?)? - std(a.get(1)?, a.get(2)?)?)))(),
+        "ndt.addstd_assign" => (|| { let mut t = dec_ndt(a.get(0)?)?; t += std(a.get(1)?, a.get(2)?)?; Some(enc_ndt(t)) })(),
+        "ndt.substd_assign" => (|| { let mut t = dec_ndt(a.get(0)?)?; t -= std(a.get(1)?, a.get(2)?)?; Some(enc_ndt(t)) })(),
         // impl Timelike for NaiveDateTime called directly (accessors, provided methods, setters)
         "ndt.tacc" => (|| {
             let n = dec_ndt(a.get(0)?)?;
